@@ -21,7 +21,7 @@ from ..report import Report
 from . import c09
 
 CFG = {"quick": {"cfgs": ["MC_Compound_quick.cfg", "MC_Compound_quick4.cfg"], "sample": 120, "kappas": 2, "kappa_states": 12, "hist": 48, "hist_len": 25},
-       "thorough": {"cfgs": ["MC_Compound_thorough.cfg", "MC_Compound_thorough4.cfg"], "sample": 4000, "kappas": 6, "kappa_states": 60, "hist": 400, "hist_len": 40}}
+       "thorough": {"cfgs": ["MC_Compound_thorough.cfg", "MC_Compound_thorough4.cfg"], "sample": 1200, "kappas": 6, "kappa_states": 40, "hist": 400, "hist_len": 40}}
 ROLES = {"b": "src", "c": "sens", "f": "src"}
 SHAPES = [{"A": ["b"], "b": []}, {"A": ["b", "c"], "b": [], "c": []}, {"A": ["D"], "D": ["b"], "b": []},
           {"A": ["b", "D"], "b": [], "D": ["c", "E"], "c": [], "E": ["f"], "f": []}]
